@@ -1003,20 +1003,28 @@ def nice(rnd, lo=1, hi=20):
     return "".join(rnd.choice(NICE) for _ in range(rnd.randint(lo, hi)))
 
 
-def e2e_client(rnd, g):
+def e2e_client(rnd, g, discovery=False):
     """Drive the REAL KafkaClient's public request methods (and the coordinator request function the group
     Coordinator uses); capture (correlation id registered with the broker client, bytes) at the lowest request
-    functions.  Returns [(api, args for Api.expect, frame)]."""
+    functions.  discovery=True: the version lookup is answered with a table first (Produce/Fetch go out as v2).
+    Returns [(api, args for Api.expect, frame)]."""
     from twisted.internet import defer
     from afkak.common import (BrokerMetadata, FetchRequest, OffsetCommitRequest, OffsetFetchRequest, OffsetRequest,
-                              TopicAndPartition, _HeartbeatRequest, _JoinGroupRequest, _JoinGroupRequestProtocol,
+                              ProduceRequest, TopicAndPartition, _HeartbeatRequest, _JoinGroupRequest, _JoinGroupRequestProtocol,
                               _LeaveGroupRequest, _SyncGroupRequest, _SyncGroupRequestMember)
     from afkak.kafkacodec import KafkaCodec
     cid = rnd.choice(["afkak-client", nice(rnd), "klient-\u00e9"])
-    sc = ScriptedClient(False, client_id=cid)
+    sc = ScriptedClient(discovery, client_id=cid)
     cidb = cid.encode("utf-8")
     del sc.client._send_broker_aware_request
     frames = []
+    pver = fver = 0
+    if discovery:
+        table = gen_table(rnd, True)
+        h = watch(sc.client.get_api_version(KafkaCodec.PRODUCE_KEY))
+        sc.deliver(sc.unaware[-1], (0, 0, table))
+        pver = h[0][1]
+        fver = fired(sc.client.get_api_version(KafkaCodec.FETCH_KEY))[1]
 
     def make_request(broker, correlationId, request, expectResponse=True, min_timeout=None):
         frames.append((correlationId, bytes(request)))
@@ -1038,12 +1046,31 @@ def e2e_client(rnd, g):
         out.append((api, a, fr))
     n = rnd.randint(1, 4)
     part = lambda: rnd.choice([0, 1, 2, 7])            # noqa: E731
-    # fetch (discovery disabled: v0)
+    # produce, called directly with message lists of both formats (the format is the CALLER's business here)
+    papi = ProduceApi()
+    ps, inner_of = [], {}
+    for _ in range(n):
+        while True:
+            mi = papi.gen_messages(g)
+            if all(m.magic in (0, 1) and 0 <= m.attributes < 256 and (m.attributes & 7 == 0 or inner is not None)
+                   and (m.timestamp is None or I64[0] <= m.timestamp <= I64[1])
+                   and all(x is None or len(x) < 1000 for x in (m.key, m.value)) for m, inner in mi):
+                break
+        for m, inner in mi:
+            if inner is not None:
+                inner_of[id(m)] = inner
+        ps.append(ProduceRequest(rnd.choice(topics), part(), [m for m, _ in mi]))
+    leaders(ps)
+    acks, tmo, clock = rnd.choice([1, -1, 0, 3]), rnd.choice([1000, g.i32(oob=0)]), (rnd.choice([5, 1600000000000]), 1)
+    with CL.Recorder(*clock):
+        watch(sc.client.send_produce_request(ps, acks=acks, timeout=tmo))
+    last("produce", {"payloads": ps, "acks": acks, "timeout": tmo, "ver": pver, "clock": clock, "inner_of": inner_of, "keep": ps})
+    # fetch
     ps = [FetchRequest(rnd.choice(topics), part(), g.i64(oob=0), g.i32(oob=0)) for _ in range(n)]
     leaders(ps)
     w, mb = rnd.choice([0, 100, 500]), g.i32(oob=0)
     watch(sc.client.send_fetch_request(ps, max_wait_time=w, min_bytes=mb))
-    last("fetch", {"payloads": ps, "wait": w, "minb": mb, "ver": 0})
+    last("fetch", {"payloads": ps, "wait": w, "minb": mb, "ver": fver})
     ps = [OffsetRequest(rnd.choice(topics), part(), rnd.choice([-1, -2, g.i64(oob=0)]), g.i32(oob=0)) for _ in range(n)]
     leaders(ps)
     watch(sc.client.send_offset_request(ps))
@@ -1386,9 +1413,9 @@ def run(ck):
     # ---- 4b. end to end: every other request type through the real KafkaClient
     by_name = {api.name: api for api in APIS}
     sp_cases, sp_impl = [], []
-    for _ in range(25 * scale):
-        for name, a, fr in e2e_client(rnd, g):
-            ck.hist("e2e_client_" + name)
+    for k in range(25 * scale):
+        for name, a, fr in e2e_client(rnd, g, discovery=(k % 2 == 1)):
+            ck.hist("e2e_client_" + name + ("_v%d" % min(a["ver"], 2) if "ver" in a else ""))
             req, flat, case = spec_parse(fr)
             sp_cases.append(case)
             sp_impl.append(flat)
